@@ -200,7 +200,24 @@ func (d *ledgerDriver) cfgJSON() map[string]interface{} {
 
 // give every staker account a known native balance (model units * scale)
 func (d *ledgerDriver) fundNative() {
-	// balances come from genesis (NativeFunds); nothing to do. Kept for symmetry.
+	// genesis gives every account a large native balance; when the world asks for model-sized
+	// balances (natFunds model units), move the excess to a sink so that "insufficient funds" is reachable
+	if d.lc.NatFunds == "" {
+		return
+	}
+	units, ok := new(big.Int).SetString(d.lc.NatFunds, 10)
+	if !ok {
+		return
+	}
+	target := sdkmath.NewIntFromBigInt(new(big.Int).Mul(units, d.scale))
+	sink := sdk.AccAddress(h256("native-sink")[:20])
+	for _, a := range d.w.StAddrs {
+		acc := sdk.AccAddress(a.Bytes())
+		bal := d.w.App.BankKeeper.GetBalance(d.ctx, acc, utils.BaseDenom).Amount
+		if bal.GT(target) {
+			must(d.w.App.BankKeeper.SendCoins(d.ctx, acc, sink, sdk.NewCoins(sdk.NewCoin(utils.BaseDenom, bal.Sub(target)))))
+		}
+	}
 }
 
 func (d *ledgerDriver) amt(e BEvent, k string) sdkmath.Int {
